@@ -276,6 +276,21 @@ func main() {
 				}
 			}
 			if *verbose > 0 {
+				type kv struct {
+					k string
+					v int
+				}
+				var fs []kv
+				for k, v := range e.forkSites {
+					fs = append(fs, kv{k, v})
+				}
+				sort.Slice(fs, func(i, j int) bool { return fs[i].v > fs[j].v })
+				for i, x := range fs {
+					if i < 25 {
+						fmt.Fprintf(os.Stderr, "    fork x%d at %s\n", x.v, x.k)
+					}
+				}
+				e.forkSites = nil
 				for _, v := range hr.Inconclusive {
 					fmt.Fprintf(os.Stderr, "    INCONCL %s [%s] %s %dms path=%v\n", v.Label, v.Kind, v.Site, v.TimeMS, v.Path)
 				}
